@@ -3,8 +3,8 @@ import csv as pycsv, io, json
 from concurrent.futures import ThreadPoolExecutor
 from vlib import *
 
-FMT = {"tsv": 0, "dkvp": 1, "nidx": 2, "csv": 3, "json": 4, "xtab": 5}
-WIDTH_FMTS = ("xtab",)
+FMT = {"tsv": 0, "dkvp": 1, "nidx": 2, "csv": 3, "json": 4, "xtab": 5, "csvlite": 6, "pprint": 7}
+WIDTH_FMTS = ("xtab", "pprint")
 
 # separators: (command-line spelling, bytes)
 SEPS1 = [(",", b","), (";", b";"), ("|", b"|"), (":", b":"), ("semicolon", b";"), ("pipe", b"|"), ("comma", b","),
@@ -122,6 +122,31 @@ def gen_write_case(ctx, fmt):
             keys = gen_keys(rng, n, kalpha)
             recs.append([(k, gen_cell(rng, valpha)) for k in keys])
         c["args"], c["recs"] = args, recs
+    elif fmt in ("csvlite", "pprint"):
+        crlf = rng.random() < 0.2
+        headerless = rng.random() < 0.1
+        if fmt == "csvlite":
+            fs = rng.choice([(None, b",")] * 3 + [("semicolon", b";"), ("tab", b"\t"), ("pipe", b"|"), (";;", b";;")])
+            args = ["--ocsvlite"] + (["--ofs", fs[0]] if fs[0] else [])
+            c["seps"] = [fs[1]]
+            excl = fs[1] + b"\n"
+        else:
+            args = ["--opprint"]
+            c["seps"] = []
+            excl = b" \n"
+        args += (["--headerless-csv-output"] if headerless else []) + (["--ors", "crlf"] if crlf else [])
+        c["flags"] = [headerless, crlf]
+        in_dom = rng.random() < 0.85
+        alpha = alpha_without(excl + b"\r") if in_dom else ALPHA_WEIGHTED
+        recs, keys = [], None
+        for i in range(nrec):
+            if keys is None or rng.random() < 0.35:      # schema change (heterogeneity)
+                n = gen_nfields(rng, big and i < 2) if rng.random() > 0.05 else 0
+                keys = gen_keys(rng, n, alpha)
+                if fmt == "pprint" and in_dom:
+                    keys = [k or b"k" for k in keys]
+            recs.append([(k, gen_cell(rng, alpha, empty_p=0.12)) for k in keys])
+        c["args"], c["recs"] = args, recs
     elif fmt == "xtab":
         right = rng.random() < 0.2
         ps = rng.choice([(None, b" ")] * 3 + [("colon", b":"), ("tab", b"\t"), ("::", b"::"), ("equals", b"=")])
@@ -209,6 +234,24 @@ def in_domain(c):
                 if set(k) & (set(fs) | set(ps) | {10}) or set(v) & (set(fs) | {10}):
                     return False
             if r and not crlf and r[-1][1].endswith(b"\r"):
+                return False
+        return True
+    if fmt in ("csvlite", "pprint"):
+        if c["flags"][0]:
+            return False        # headerless output is not self-describing (heterogeneity is lost)
+        fs = c["seps"][0] if fmt == "csvlite" else b" "
+        for i, r in enumerate(recs):
+            ks = [k for k, _ in r]
+            if not r or len(set(ks)) != len(ks):
+                return False
+            cells = ks + [v for _, v in r]
+            if any(set(x) & (set(fs) | {10, 13, 44}) for x in cells):
+                return False
+            if fmt == "pprint" and (any(x == b"" for x in ks) or any(v == b"-" for _, v in r)):
+                return False
+            if fmt == "csvlite" and len(r) == 1 and (ks[0] == b"" or r[0][1] == b""):
+                return False    # a single empty field is an empty line, which means schema change
+            if i == 0 and ks[0].startswith(b"\xef"):
                 return False
         return True
     if fmt == "xtab":
@@ -420,6 +463,16 @@ def read_variants(ctx, c):
         dd = rng.random() < 0.85
         args = ["--idkvp"] + (["--ifs", sepname(fs), "--ips", sepname(ps)] if (fs, ps) != (b",", b"=") else []) + ([] if dd else ["--no-dedupe-field-names"])
         out.append((args, [False, dd], [fs, ps]))
+    elif fmt in ("csvlite", "pprint"):
+        dd = rng.random() < 0.85
+        rg = rng.random() < 0.15
+        if not c["flags"][0]:
+            if fmt == "csvlite":
+                fs = c["seps"][0]
+                out.append((["--icsvlite"] + (["--ifs", sepname(fs)] if fs != b"," else []) + ([] if dd else ["--no-dedupe-field-names"])
+                            + (["--allow-ragged-csv-input"] if rg else []), [dd, rg], [fs]))
+            else:
+                out.append((["--ipprint"] + ([] if dd else ["--no-dedupe-field-names"]) + (["--allow-ragged-csv-input"] if rg else []), [dd, rg], []))
     elif fmt == "xtab":
         ps = c["seps"][0]
         dd = rng.random() < 0.85
@@ -494,10 +547,24 @@ def gen_extra_read_cases(ctx, n):
     rng = ctx.rng
     jobs = []
     for _ in range(n):
-        kind = rng.choice(["xtab-hand", "json-hand", "json-hand", "csv-legal", "csv-legal", "csv-legal", "csv-bom", "csv-noeol", "csv-ragged", "csv-implicit", "csv-lazy", "csv-dupkeys",
+        kind = rng.choice(["lite-hand", "pprint-hand", "xtab-hand", "json-hand", "json-hand", "csv-legal", "csv-legal", "csv-legal", "csv-bom", "csv-noeol", "csv-ragged", "csv-implicit", "csv-lazy", "csv-dupkeys",
                            "tsv-hand", "tsv-ragged", "tsv-implicit", "dkvp-hand", "dkvp-repifs", "nidx-ws", "nidx-hand"])
         ctx.dist("read-extra:" + kind)
-        if kind == "xtab-hand":
+        if kind in ("lite-hand", "pprint-hand"):
+            fs = b"," if kind == "lite-hand" else b" "
+            alpha = [p for p in ALPHA_WEIGHTED if b"\n" not in p and b"\r" not in p] + [fs, fs, fs + fs, b"-"] * 8
+            lines = [b"".join(rng.choice(alpha) for _ in range(rng.randint(1, 10))) if rng.random() < 0.85 else b"" for _ in range(rng.randint(1, 7))]
+            if rng.random() < 0.15:
+                lines[0] = b"\xef\xbb\xbf" + lines[0]
+            eol = rng.choice([b"\n", b"\n", b"\r\n"])
+            text = eol.join(lines) + (eol if rng.random() < 0.85 else b"")
+            dd = rng.random() < 0.7
+            rg = rng.random() < 0.4
+            base = ["--icsvlite"] if kind == "lite-hand" else ["--ipprint"]
+            jobs.append({"fmt": "csvlite" if kind == "lite-hand" else "pprint",
+                         "args": base + ([] if dd else ["--no-dedupe-field-names"]) + (["--allow-ragged-csv-input"] if rg else []),
+                         "flags": [dd, rg], "seps": [fs] if kind == "lite-hand" else [], "text": text, "kind": kind})
+        elif kind == "xtab-hand":
             ps = rng.choice([b" ", b" ", b":", b"::"])
             alpha = [p for p in ALPHA_WEIGHTED if b"\n" not in p] + [ps, ps + ps, b" "] * 8
             lines = [b"".join(rng.choice(alpha) for _ in range(rng.randint(0, 10))) if rng.random() < 0.8 else b"" for _ in range(rng.randint(1, 7))]
@@ -665,7 +732,7 @@ def py_csv_read(text, comma):
 
 def run(ctx):
     quick = ctx.tier == "quick"
-    ctx.cov["rule"] = ("record streams per format (TSV, DKVP, NIDX, CSV, JSON/JSON Lines, XTAB): 0-6 records, 1-40 fields, cells from a weighted alphabet (separators, quotes, "
+    ctx.cov["rule"] = ("record streams per format (TSV, DKVP, NIDX, CSV, JSON/JSON Lines, XTAB, csvlite, PPRINT): 0-6 records, 1-40 fields, cells from a weighted alphabet (separators, quotes, "
                        "backslash, CR, LF, CRLF, TAB, NUL, multi-byte and invalid UTF-8, BOM, '-', empty, leading/trailing space) x writer options "
                        "(headerless, --quote-all, --ors crlf, --ofs/--ops custom incl. multi-char and named aliases) x reader options "
                        "(implicit header, ragged, lazy quotes, no-dedupe, repifs, NIDX whitespace regex); plus reader-only texts (any legal RFC-4180 quoting, "
@@ -678,10 +745,10 @@ def run(ctx):
                        "go-csv behaviour after a quoting error inside a record is not modelled (cases skipped and counted)",
                        "comma/IFS bytes below 0x80"]
     forbidden_gate(ctx, ["Base", "C01"])
-    ok, why = check_props(ctx, "C01/Props.v", ["C01/Harness.vo", "C01/ProofsDkvp.vo", "C01/ProofsTsv.vo", "C01/ProofsCsv.vo", "C01/ProofsCsv2.vo", "C01/ProofsJson.vo", "C01/ProofsXtab.vo"])
+    ok, why = check_props(ctx, "C01/Props.v", ["C01/Harness.vo", "C01/ProofsDkvp.vo", "C01/ProofsTsv.vo", "C01/ProofsCsv.vo", "C01/ProofsCsv2.vo", "C01/ProofsJson.vo", "C01/ProofsXtab.vo", "C01/ProofsLite.vo"])
 
     # ---- generate and run the writers
-    per_fmt = {"tsv": 200, "csv": 260, "dkvp": 140, "nidx": 80, "json": 140, "xtab": 120} if quick else {"tsv": 4000, "csv": 5000, "dkvp": 3000, "nidx": 1500, "json": 3000, "xtab": 2500}
+    per_fmt = {"tsv": 200, "csv": 260, "dkvp": 140, "nidx": 80, "json": 140, "xtab": 120, "csvlite": 140, "pprint": 140} if quick else {"tsv": 4000, "csv": 5000, "dkvp": 3000, "nidx": 1500, "json": 3000, "xtab": 2500, "csvlite": 2500, "pprint": 2500}
     wcases = []
     for fmt, n in per_fmt.items():
         for _ in range(n):
